@@ -47,7 +47,7 @@ STUBS = ["raw O_APPEND file layer (SimRaw: one write = one atomic append event)"
 ASSUMPTIONS = [
     "an O_APPEND write(2) of one buffer is atomic with respect to other appenders (POSIX local file systems)",
     "writers in other processes are modelled as tasks with their own file description and buffer",
-    "rotation is interrupted by process kill (the quantifier's crash points), not by failing system calls",
+    "a rotation is interrupted by a process kill between two file-system steps, or by a step that fails (EIO / ENOSPC / EACCES / EBUSY / EXDEV, once or persistently)",
     "stager: the producers in the tree stage each file's records in key order; a limit-dependent order is reported as "
     "stager:non-monotone-arrival when the arrivals for that file were not already in key order, otherwise stager:monotone-arrival",
 ]
@@ -109,10 +109,14 @@ def generate(seed: int, tier: str) -> Dict[str, Any]:
             x = r.random()
             if x < 0.45:
                 ops.append({"op": "append", "n": r.randint(1, 3)})
-            elif x < 0.8:
+            elif x < 0.7:
                 ops.append({"op": "rotate", "backups": r.randint(1, 4)})
-            else:
+            elif x < 0.85:
                 ops.append({"op": "rotate", "backups": r.randint(1, 4), "kill_at": r.randint(0, 12)})
+            else:
+                # a rotation step that FAILS (the other way a rotation is interrupted): the rename / unlink returns an error
+                ops.append({"op": "rotate", "backups": r.randint(1, 4), "fail_at": r.randint(0, 8),
+                            "errno": r.choice(["EIO", "ENOSPC", "EACCES", "EBUSY", "EXDEV"]), "times": r.choice([1, -1])})
         p.update({"pre": pre, "pre_count": seq, "ops": ops})
     return p
 
@@ -373,6 +377,8 @@ def _rotation(p: Dict[str, Any], stats: Dict[str, int]) -> List[Dict[str, Any]]:
                 n = int(op["backups"])
                 oldest_before = set(before.get("t1.jsonl.%d" % n, []))
                 faults = [{"k": int(op["kill_at"]), "kind": "crash"}] if "kill_at" in op else []
+                if "fail_at" in op:
+                    faults = [{"k": int(op["fail_at"]), "kind": "error", "errno": op["errno"], "times": int(op.get("times", 1))}]
                 fs = SimFS(root, plan=FaultPlan(faults), clock=clock)
                 killed = False
                 with fs:
@@ -381,6 +387,11 @@ def _rotation(p: Dict[str, Any], stats: Dict[str, int]) -> List[Dict[str, Any]]:
                     except SimCrash:
                         killed = True
                         stats["kills_fired"] = stats.get("kills_fired", 0) + 1
+                    except OSError:
+                        killed = "error"  # type: ignore[assignment]
+                        stats["rotation_errors_raised"] = stats.get("rotation_errors_raised", 0) + 1
+                if "fail_at" in op and fs.plan.fired:
+                    stats["rotation_step_failures"] = stats.get("rotation_step_failures", 0) + 1
                 stats["rotations"] = stats.get("rotations", 0) + 1
                 stats["rotation_events"] = stats.get("rotation_events", 0) + len(fs.trace)
                 after = snapshot()
@@ -396,7 +407,7 @@ def _rotation(p: Dict[str, Any], stats: Dict[str, int]) -> List[Dict[str, Any]]:
                     viol.append({"cls": "rotation", "sig": "rotation:order-not-preserved", "detail": "generations oldest->newest %s are not a subsequence of %s; %s" % (seq, everything, ctx)})
                 lost = set(gens(before)) - set(seq)
                 if not lost <= oldest_before:
-                    viol.append({"cls": "rotation", "sig": "rotation:lost-more-than-oldest%s" % (":killed" if killed else ""),
+                    viol.append({"cls": "rotation", "sig": "rotation:lost-more-than-oldest%s" % (":failed-step" if killed == "error" or "fail_at" in op else (":killed" if killed else "")),
                                  "detail": "lost %s, the then-oldest generation held %s; %s" % (sorted(lost), sorted(oldest_before), ctx)})
                 if viol:
                     break
